@@ -1091,33 +1091,90 @@ func derivesFromReceiver(v ssa.Value, fn *ssa.Function) bool {
 // ---------- N-DEEPEST ----------
 
 func ruleNDeepest(c *engine.Context) *report.Rule {
-	r := report.NewRule("N-DEEPEST", "inside fan-out loops a branch error is only accumulated through the deepest-error helper; nothing else decides which error survives", 7)
+	r := report.NewRule("N-DEEPEST", "inside fan-out loops a branch error is only accumulated through the deepest-error helper; nothing else decides which error survives", 4)
 	p := c.P
 	// the helper: method of the basic node returning (int, runtime error)
 	var helper *ssa.Function
+	byPointer := false // the helper updates the accumulators through pointer parameters
+	isPtrTo := func(t types.Type, elem func(types.Type) bool) bool {
+		pt, ok := t.(*types.Pointer)
+		return ok && elem(pt.Elem())
+	}
+	isRtErr := func(t types.Type) bool { return types.Identical(t, p.Roles.RuntimeErrIface) }
 	for _, fn := range evalFuncs(c) {
+		if sinkParam(p, fn) != nil {
+			continue
+		}
 		res := fn.Signature.Results()
-		if res.Len() == 2 && isIntT(res.At(0).Type()) && types.Identical(res.At(1).Type(), p.Roles.RuntimeErrIface) && sinkParam(p, fn) == nil {
-			nErr, nInt := 0, 0
-			for _, prm := range fn.Params {
-				if types.Identical(prm.Type(), p.Roles.RuntimeErrIface) {
-					nErr++
-				}
-				if isIntT(prm.Type()) {
-					nInt++
-				}
+		nErr, nInt, nPErr, nPInt := 0, 0, 0, 0
+		for _, prm := range fn.Params {
+			switch {
+			case isRtErr(prm.Type()):
+				nErr++
+			case isIntT(prm.Type()):
+				nInt++
+			case isPtrTo(prm.Type(), isRtErr):
+				nPErr++
+			case isPtrTo(prm.Type(), isIntT):
+				nPInt++
 			}
-			if nErr == 2 && nInt == 1 {
-				if helper != nil {
-					r.InfraFail("anchor ambiguous: deepest-error helper (%s, %s)", helper.Name(), fn.Name())
-				}
-				helper = fn
+		}
+		byValue := res.Len() == 2 && isIntT(res.At(0).Type()) && isRtErr(res.At(1).Type()) && nErr == 2 && nInt == 1
+		byPtr := res.Len() == 0 && nErr == 1 && nPErr == 1 && nPInt == 1
+		if byValue || byPtr {
+			if helper != nil {
+				r.InfraFail("anchor ambiguous: deepest-error helper (%s, %s)", helper.Name(), fn.Name())
 			}
+			helper = fn
+			byPointer = byPtr
 		}
 	}
 	if helper == nil {
 		r.InfraFail("anchor unresolved: deepest-error helper")
 		return r
+	}
+	if byPointer {
+		// the accumulator is a local variable whose address goes to the helper: nothing else may
+		// store into it once the fan-out loop runs
+		for _, fn := range retrieveFamily(c) {
+			loops := cfgutil.Loops(fn)
+			for _, b := range fn.Blocks {
+				for _, ins := range b.Instrs {
+					al, ok := ins.(*ssa.Alloc)
+					if !ok || !isRtErr(al.Type().(*types.Pointer).Elem()) {
+						continue
+					}
+					handed := false
+					for _, ref := range *al.Referrers() {
+						if call, isCall := ref.(*ssa.Call); isCall && call.Call.StaticCallee() == helper {
+							handed = true
+						}
+					}
+					if !handed {
+						continue
+					}
+					r.Instances++
+					ok2 := true
+					for _, ref := range *al.Referrers() {
+						st, isSt := ref.(*ssa.Store)
+						if !isSt || st.Addr != ssa.Value(al) {
+							continue
+						}
+						for _, l := range loops {
+							if l.Blocks[st.Block()] {
+								ok2 = false
+							}
+						}
+					}
+					r.Oblige(ok2)
+					r.Sample("%s: error accumulator (by address) updated only by %s inside loops: %v", load.FuncName(fn), helper.Name(), ok2)
+					if !ok2 {
+						r.Violation(fmt.Sprintf("error accumulator of %s", load.FuncName(fn)), p.RelPos(fn.Pos()),
+							"the error kept across iterations is updated by something other than the deepest-error helper %s: the deepest / preferred-kind tie rule is bypassed", helper.Name())
+					}
+				}
+			}
+		}
 	}
 	for _, fn := range retrieveFamily(c) {
 		for _, l := range cfgutil.Loops(fn) {
@@ -1195,10 +1252,29 @@ func ruleNDeepest(c *engine.Context) *report.Rule {
 				if errV == nil || !types.Identical(errV.Type(), p.Roles.RuntimeErrIface) {
 					continue
 				}
-				if _, isCall := errV.(*ssa.Call); !isCall {
-					continue
+				// the error of a step taken inside the loop: the step's call itself, or (where the
+				// forward-or-emit helper is expanded) the merge of its outcomes
+				var isBranchErr func(v ssa.Value, depth int) bool
+				isBranchErr = func(v ssa.Value, depth int) bool {
+					if depth > 3 {
+						return false
+					}
+					switch x := v.(type) {
+					case *ssa.Call:
+						return l.Blocks[x.Block()]
+					case *ssa.Phi:
+						if !l.Blocks[x.Block()] || x.Block() == l.Header {
+							return false
+						}
+						for _, e := range x.Edges {
+							if isBranchErr(e, depth+1) {
+								return true
+							}
+						}
+					}
+					return false
 				}
-				if !l.Blocks[errV.(*ssa.Call).Block()] {
+				if !isBranchErr(errV, 0) {
 					continue
 				}
 				r.Instances++
